@@ -49,6 +49,22 @@ def programs():
     # pointer / function-pointer type must match
     add("TV_assign", ("Cb", "fn2"), "e.v_fn = e.cb2;", "reject", "callback of another function type")
     add("T_assign", ("Cb", "fn"), "e.t_fn = e.cb;", "reject", "a callback cannot be stored in application memory")
+    # a callback goes into a cell of ITS function-pointer type only: never into an integer, enum, data-pointer or void* cell
+    add("TV_assign", ("Cb", "long"), "e.v_long = e.cb;", "reject", "callback into an integer cell")
+    add("TV_assign", ("Cb", "ullong"), "e.v_ullong = e.cb;", "reject", "callback into an integer cell")
+    add("TV_assign", ("Cb", "enum"), "e.v_enum = e.cb;", "reject", "callback into an enum cell")
+    add("TV_assign", ("Cb", "bool"), "e.v_bool = e.cb;", "reject", "callback into a bool cell")
+    add("TV_assign", ("Cb", "pint"), "e.v_pint = e.cb;", "reject", "callback into a data-pointer cell")
+    add("TV_assign", ("Cb", "pvoid"), "e.v_pvoid = e.cb;", "reject", "callback into a void* cell")
+    add("TV_deref_assign", ("Cb", "pint"), "*e.t_ppint = e.cb;", "reject", "callback into a data-pointer cell")
+    # the same for a sandbox function address held in a tainted
+    add("TV_assign", ("T", "fn>bool"), "e.v_bool = e.t_fn;", "reject", "sandbox function address into a bool cell")
+    add("TV_assign", ("T", "fn>ullong"), "e.v_ullong = e.t_fn;", "reject", "sandbox function address into an integer cell")
+    add("TV_assign", ("T", "fn>pvoid"), "e.v_pvoid = e.t_fn;", "reject", "sandbox function address into a void* cell")
+    add("T_assign", ("T", "fn>bool"), "e.t_bool = e.t_fn;", "reject", "sandbox function address into a tainted bool")
+    add("T_assign", ("T", "fn>ullong"), "e.t_ullong = e.t_fn;", "reject", "sandbox function address into a tainted integer")
+    add("T_assign", ("T", "fn>fn2"), "e.t_fn2 = e.t_fn;", "reject", "sandbox function address into a tainted of another function type")
+    add("TV_field_assign", ("Cb", "long"), "e.t_pst->b = e.cb;", "reject", "callback into an integer field")
     add("T_init_copy", ("Cb", "fn"), "T_<Fn> x = e.cb; (void)x;", "reject")
     add("T_assign", ("T", "pcchar"), "e.t_pint = e.t_pcchar;", "reject", "tainted<int*> = tainted<const char*>")
     add("TV_assign", ("T", "pchar"), "e.v_pint = e.t_pchar;", "reject", "fixed D14: tainted_volatile<int*> = tainted<char*>")
@@ -69,6 +85,12 @@ def programs():
     add("invoke_arg", ("Foreign", "pint"), "e.sb.invoke_sandbox_function(lib_pint, e.x_pint);", "reject")
     add("invoke_arg", ("Foreign", "fn"), "e.sb.invoke_sandbox_function(lib_fn, e.x_cb);", "reject")
     add("invoke_arg", ("Cb", "fn2"), "e.sb.invoke_sandbox_function(lib_fn, e.cb2);", "reject", "callback of another function type")
+    add("invoke_arg", ("Cb", "int"), "e.sb.invoke_sandbox_function(lib_int, e.cb);", "reject", "callback passed for an integer parameter")
+    add("invoke_arg", ("Cb", "pint"), "e.sb.invoke_sandbox_function(lib_pint, e.cb);", "reject", "callback passed for a data-pointer parameter")
+    add("invoke_arg", ("T", "fn>int"), "e.sb.invoke_sandbox_function(lib_int, e.t_fn);", "reject", "sandbox function address passed for an integer parameter")
+    add("invoke_arg", ("T", "fn>fn2"), "e.sb.invoke_sandbox_function(lib_fn2, e.t_fn);", "reject", "sandbox function address passed for another function type")
+    add("invoke_arg", ("T", "fn>pint"), "e.sb.invoke_sandbox_function(lib_pint, e.t_fn);", "reject", "sandbox function address passed for a data-pointer parameter")
+    add("invoke_arg", ("T", "fn"), "e.sb.invoke_sandbox_function(lib_fn, e.t_fn);", "accept")
     add("invoke_arg", ("Plain", "int"), "e.sb.invoke_sandbox_function(lib_int, e.p_int);", "accept")
     add("invoke_arg", ("Plain", "nullptr"), "e.sb.invoke_sandbox_function(lib_pint, nullptr);", "accept")
     add("invoke_arg", ("T", "pint"), "e.sb.invoke_sandbox_function(lib_pint, e.t_pint);", "accept")
